@@ -151,6 +151,34 @@ def c30_PROPOSED_MINIMAL_FIX_logging_disable_only():
     ex.TestCaseExecutor._execute_test_case = _execute_test_case
 
 
+def _overlay_patch_file(diff_name, modules):
+    """Apply tools/proposed_patches/<diff_name> to a *copy* of /repo/src and re-execute the patched sources inside the
+    already imported modules (dependency order), so that the real diff is what gets tested. /repo is not touched."""
+    import importlib
+    import subprocess
+
+    tmp = pathlib.Path(tempfile.mkdtemp(prefix="pynverif-overlay-"))
+    shutil.copytree("/repo/src", tmp / "src")
+    diff = pathlib.Path(__file__).resolve().parent / "proposed_patches" / diff_name
+    subprocess.run(["patch", "-p1", "-s", "-d", str(tmp), "-i", str(diff)], check=True)
+    for name in modules:
+        mod = importlib.import_module(name)
+        src = (tmp / "src" / (name.replace(".", "/") + ".py")).read_text()
+        exec(compile(src, mod.__file__, "exec"), mod.__dict__)  # noqa: S102
+    shutil.rmtree(tmp, ignore_errors=True)
+
+
+def c30_PROPOSED_PATCH_FILE():
+    """tools/proposed_patches/c30_logging_state_and_null_file.diff (logging state + shared null file; not stdin)."""
+    _overlay_patch_file("c30_logging_state_and_null_file.diff",
+                        ["pynguin.testcase.execution_isolation", "pynguin.testcase.execution", "pynguin.testcase.subprocess_executor"])
+
+
+def c31_PROPOSED_PATCH_FILE():
+    """tools/proposed_patches/c31_keep_unpicklable_exceptions.diff."""
+    _overlay_patch_file("c31_keep_unpicklable_exceptions.diff", ["pynguin.testcase.subprocess_executor"])
+
+
 # =============================================================================== C31
 def _patch_fix_result(extra):
     from pynguin.testcase.subprocess_executor import SubprocessTestCaseExecutor as S
@@ -316,7 +344,7 @@ def _child(which, name):
         elif which == "c31":
             import checks.c31_inproc_vs_subprocess as chk
 
-            mods = ["c31_exc", "c31_acc"] if "exception" in name.lower() or name == "none" else ["c31_acc", "c31_tri"]
+            mods = ["c31_exc", "c31_acc"] if "exception" in name.lower() or name in ("none", "PROPOSED_PATCH_FILE") else ["c31_acc", "c31_tri"]
             # one SUT module per process (the subprocess executor looks at sys.meta_path[0]): second module in a grandchild
             chk.run_chunk({"name": "directed", "module": mods[0]}, ctx)
         else:
